@@ -353,27 +353,76 @@ func tgDescribe(d []tgFile) string {
 	return strings.Join(fs, " ")
 }
 
-// tgFindingKey names the cause of a disagreement by the first suspicious ingredient of the directory
+// tgFindingKey names the cause of a disagreement by the lines whose tests differ (expected but not generated, or
+// generated but not expected, by either generator): the class / file kind of the first such line in the priority order
+// below. A difference that involves an ordinary test line of a file that is read, or a name that is in no line of the
+// directory, is "testgen.other" (never a known finding).
 func tgFindingKey(d []tgFile, gotGo, gotCoq, want []string) string {
+	count := func(xs []string) map[string]int {
+		m := map[string]int{}
+		for _, x := range xs {
+			m[strings.TrimPrefix(x, "!")]++
+		}
+		return m
+	}
+	w, g1, g2 := count(want), count(gotGo), count(gotCoq)
+	differs := map[string]bool{}
+	flagOnly := false
+	for _, m := range []map[string]int{g1, g2} {
+		for n, k := range m {
+			if w[n] != k {
+				differs[n] = true
+			}
+		}
+		for n, k := range w {
+			if m[n] != k {
+				differs[n] = true
+			}
+		}
+	}
+	if len(differs) == 0 {
+		flagOnly = true // same names, different order or failing marks
+	}
+	type lk struct{ kind, class string }
+	var hit []lk
+	found := map[string]bool{}
 	for _, f := range d {
 		for _, l := range f.Lines {
-			if (f.Kind == "gotest" || f.Kind == "exttest" || f.Kind == "gold") && (l.Class == "test" || l.Class == "failing" || l.Class == "blockline" || l.Class == "oneline" || l.Class == "bracecomment" || l.Class == "failingoneline") {
-				return "testgen.go-reads-" + strings.Replace(f.Kind, "exttest", "gotest", 1)
+			if differs[tgTestName(l)] || differs[l.N] {
+				hit = append(hit, lk{f.Kind, l.Class})
+				found[tgTestName(l)], found[l.N] = true, true
 			}
+		}
+	}
+	for n := range differs {
+		if !found[n] {
+			return "testgen.other"
+		}
+	}
+	if flagOnly {
+		return "testgen.other"
+	}
+	ordinary := map[string]bool{"test": true, "failing": true, "oneline": true, "bracecomment": true, "failingoneline": true}
+	for _, h := range hit {
+		if ordinary[h.class] && (h.kind == "src" || h.kind == "testish" || h.kind == "symsrc") {
+			return "testgen.other"
+		}
+	}
+	for _, h := range hit {
+		if (h.kind == "gotest" || h.kind == "exttest" || h.kind == "gold") && (ordinary[h.class] || h.class == "blockline") {
+			return "testgen.go-reads-" + strings.Replace(h.kind, "exttest", "gotest", 1)
 		}
 	}
 	for _, cl := range []string{"blockline", "underscore", "unicode", "indented", "onelinecomment", "method", "captest", "commented", "disabled"} {
-		for _, f := range d {
-			for _, l := range f.Lines {
-				if l.Class == cl {
-					return "testgen." + cl
-				}
+		for _, h := range hit {
+			if h.class == cl {
+				return "testgen." + cl
 			}
 		}
 	}
-	for _, f := range d {
-		if f.Kind == "testish" {
-			return "testgen.testish-file"
+	for _, h := range hit {
+		if h.kind == "subdir" || h.kind == "backup" {
+			return "testgen." + h.kind
 		}
 	}
 	return "testgen.other"
